@@ -459,6 +459,36 @@ Definition c07_iter (g : g7) (st : dstate) (it : iter) (post : dstate) (obs : li
                       then [VKnown 44] else [])
                 else [])
       (sends_of obs) in
+  (* 2b. the shared records too: a PTR (type or subtype -> instance) is said only for an instance name
+         that is established on the interface, the service-type enumeration PTR (meta name -> type)
+         only if some service of that type has an established instance name there *)
+  let inst_names (s : svc) : list bytes :=
+    s_full s :: map (fun rg => resolve_name rg (s_full s)) (map snd (d_regs st) ++ map snd (d_regs post)) in
+  let ptr_ok (i : N) (r : rr) : bool :=
+    match r_data r with
+    | RPtr t => if same_name_ci (r_name r) META_QUERY
+                then existsb (fun s => beq t (s_ty s) && existsb (established i) (inst_names s)) svcs
+                else established i t
+    | _ => true
+    end in
+  let ptr_static (r : rr) : bool :=
+    match r_data r with
+    | RPtr t => if same_name_ci (r_name r) META_QUERY
+                then existsb (fun s => beq t (s_ty s) && negb (s_auto s)) svcs
+                else existsb (same_name_ci t) static_names
+    | _ => false
+    end in
+  let v_ptr :=
+    flat_map
+      (fun s => let '(i, _, _, m) := s in
+                if o_resp m && negb (is_goodbye m) then
+                  let ptrs := filter (fun r => r_type r =? TY_PTR) (live_records m) in
+                  if forallb (ptr_ok i) ptrs then []
+                  else if late then [VKnown 42]
+                  else if g_toggled g && forallb (fun r => ptr_ok i r || ptr_static r) ptrs then [VKnown 48]
+                  else [VFail 36]
+                else [])
+      (sends_of obs) in
   (* 3. the daemon asks to be woken no later than its next due work *)
   let due := due_work post in
   let v_wake :=
@@ -516,7 +546,7 @@ Definition c07_iter (g : g7) (st : dstate) (it : iter) (post : dstate) (obs : li
         (filter (fun kv => negb (left (fst kv))) (fold_left (fun acc k => incr pkey_eqb k acc) pn cnt0))
         (filter (fun kv => negb (left (fst (fst kv), lname (r_name (snd (fst kv)))))) (fold_left (fun acc k => incr rkey_eqb k acc) (probed_records obs) rcnt0))
         (filter (fun k => negb (left k)) est) late (if d_dead post then None else due) g_ann' unreg toggled,
-   v_space ++ v_form ++ v_resp ++ v_wake ++ v_second).
+   v_space ++ v_form ++ v_resp ++ v_ptr ++ v_wake ++ v_second).
 
 (* ---- running a checker next to the model over a whole history ------------------------------------- *)
 
